@@ -128,6 +128,12 @@ namespace vf
       static constexpr int value = K;
    };
 
+   template< int K >
+   struct rid< sym2< K > >
+   {
+      static constexpr int value = 10 + K;
+   };
+
    // control that replaces parse_error construction (std::string formatting) by a POD throw;
    // documented customisation point, everything else is normal<>
    template< typename Rule >
@@ -242,6 +248,9 @@ namespace vf
          if constexpr( logged ) {
             verif_event( EV_START, rid< Rule >::value, in.byte(), 0 );
          }
+         else if constexpr( !normal< Rule >::enable ) {
+            verif_event( EV_START, 999, 0, 0 );
+         }
       }
 
       template< typename ParseInput, typename... States >
@@ -249,6 +258,9 @@ namespace vf
       {
          if constexpr( logged ) {
             verif_event( EV_SUCCESS, rid< Rule >::value, in.byte(), 0 );
+         }
+         else if constexpr( !normal< Rule >::enable ) {
+            verif_event( EV_SUCCESS, 999, 0, 0 );
          }
       }
 
@@ -258,6 +270,9 @@ namespace vf
          if constexpr( logged ) {
             verif_event( EV_FAILURE, rid< Rule >::value, 0, 0 );
          }
+         else if constexpr( !normal< Rule >::enable ) {
+            verif_event( EV_FAILURE, 999, 0, 0 );
+         }
       }
 
       template< typename ParseInput, typename... States >
@@ -265,6 +280,9 @@ namespace vf
       {
          if constexpr( logged ) {
             verif_event( EV_UNWIND, rid< Rule >::value, 0, 0 );
+         }
+         else if constexpr( !normal< Rule >::enable ) {
+            verif_event( EV_UNWIND, 999, 0, 0 );   // a hook for a rule this control is not enabled for (hidden internal rule) must never be called
          }
       }
 
@@ -289,6 +307,9 @@ namespace vf
          if constexpr( logged ) {
             verif_event( EV_START, rid< Rule >::value, in.byte(), 0 );
          }
+         else if constexpr( !normal< Rule >::enable ) {
+            verif_event( EV_START, 999, 0, 0 );
+         }
       }
 
       template< typename ParseInput, typename... States >
@@ -297,6 +318,9 @@ namespace vf
          if constexpr( logged ) {
             verif_event( EV_SUCCESS, rid< Rule >::value, in.byte(), 0 );
          }
+         else if constexpr( !normal< Rule >::enable ) {
+            verif_event( EV_SUCCESS, 999, 0, 0 );
+         }
       }
 
       template< typename ParseInput, typename... States >
@@ -304,6 +328,9 @@ namespace vf
       {
          if constexpr( logged ) {
             verif_event( EV_FAILURE, rid< Rule >::value, 0, 0 );
+         }
+         else if constexpr( !normal< Rule >::enable ) {
+            verif_event( EV_FAILURE, 999, 0, 0 );
          }
       }
 
@@ -583,24 +610,27 @@ namespace vf
    struct hstate
    {
       template< typename Rule >
-      static constexpr bool enable = ( rid< Rule >::value >= 0 );
+      static constexpr bool enable = true;   // like coverage_state and the complete tracer: the state wants every rule, also hidden internal ones
+
+      template< typename Rule >
+      static constexpr bool lg = ( rid< Rule >::value >= 0 );
 
       template< typename Rule, typename ParseInput, typename... States >
-      void start( const ParseInput& in, States&&... /*unused*/ ) { verif_event( EV_START, 200 + rid< Rule >::value, in.byte(), 0 ); }
+      void start( const ParseInput& in, States&&... /*unused*/ ) { if constexpr( lg< Rule > ) verif_event( EV_START, 200 + rid< Rule >::value, in.byte(), 0 ); }
       template< typename Rule, typename ParseInput, typename... States >
-      void success( const ParseInput& in, States&&... /*unused*/ ) { verif_event( EV_SUCCESS, 200 + rid< Rule >::value, in.byte(), 0 ); }
+      void success( const ParseInput& in, States&&... /*unused*/ ) { if constexpr( lg< Rule > ) verif_event( EV_SUCCESS, 200 + rid< Rule >::value, in.byte(), 0 ); }
       template< typename Rule, typename ParseInput, typename... States >
-      void failure( const ParseInput& /*unused*/, States&&... /*unused*/ ) { verif_event( EV_FAILURE, 200 + rid< Rule >::value, 0, 0 ); }
+      void failure( const ParseInput& /*unused*/, States&&... /*unused*/ ) { if constexpr( lg< Rule > ) verif_event( EV_FAILURE, 200 + rid< Rule >::value, 0, 0 ); }
       template< typename Rule, typename ParseInput, typename... States >
-      void unwind( const ParseInput& /*unused*/, States&&... /*unused*/ ) { verif_event( EV_UNWIND, 200 + rid< Rule >::value, 0, 0 ); }
+      void unwind( const ParseInput& /*unused*/, States&&... /*unused*/ ) { if constexpr( lg< Rule > ) verif_event( EV_UNWIND, 200 + rid< Rule >::value, 0, 0 ); }
       template< typename Rule, typename ParseInput, typename... States >
-      void raise( const ParseInput& /*unused*/, States&&... /*unused*/ ) { verif_event( EV_RAISE, 200 + rid< Rule >::value, 0, 0 ); }
+      void raise( const ParseInput& /*unused*/, States&&... /*unused*/ ) { if constexpr( lg< Rule > ) verif_event( EV_RAISE, 200 + rid< Rule >::value, 0, 0 ); }
       template< typename Rule, typename Ambient, typename... States >
-      void raise_nested( const Ambient& /*unused*/, States&&... /*unused*/ ) { verif_event( EV_RAISE, 200 + rid< Rule >::value, 1, 0 ); }
+      void raise_nested( const Ambient& /*unused*/, States&&... /*unused*/ ) { if constexpr( lg< Rule > ) verif_event( EV_RAISE, 200 + rid< Rule >::value, 1, 0 ); }
       template< typename Rule, typename ParseInput, typename... States >
-      void apply( const ParseInput& /*unused*/, States&&... /*unused*/ ) { verif_event( EV_APPLY, 200 + rid< Rule >::value, 0, 0 ); }
+      void apply( const ParseInput& /*unused*/, States&&... /*unused*/ ) { if constexpr( lg< Rule > ) verif_event( EV_APPLY, 200 + rid< Rule >::value, 0, 0 ); }
       template< typename Rule, typename ParseInput, typename... States >
-      void apply0( const ParseInput& /*unused*/, States&&... /*unused*/ ) { verif_event( EV_APPLY0, 200 + rid< Rule >::value, 0, 0 ); }
+      void apply0( const ParseInput& /*unused*/, States&&... /*unused*/ ) { if constexpr( lg< Rule > ) verif_event( EV_APPLY0, 200 + rid< Rule >::value, 0, 0 ); }
    };
 
    template< typename Rule, apply_mode A, rewind_mode M, template< typename... > class Action, template< typename... > class Control, typename Input = eager_in >
@@ -690,12 +720,21 @@ namespace vf
 #define VF_WRAP( name, ... ) \
    extern "C" __attribute__( ( noinline ) ) void name( const char* b, unsigned long n, unsigned long s, unsigned long* o ) { vf::run< __VA_ARGS__ >( b, n, s, o ); }
 
+// lazy input: the four combinations with no action attached
+#define VF_WRAP4L( name, ... )                                                                                                 \
+   VF_WRAP( name##_ar, __VA_ARGS__, tao::pegtl::apply_mode::action, tao::pegtl::rewind_mode::required, tao::pegtl::nothing, vf::vcontrol, vf::lazy_in )  \
+   VF_WRAP( name##_ao, __VA_ARGS__, tao::pegtl::apply_mode::action, tao::pegtl::rewind_mode::optional, tao::pegtl::nothing, vf::vcontrol, vf::lazy_in )  \
+   VF_WRAP( name##_nr, __VA_ARGS__, tao::pegtl::apply_mode::nothing, tao::pegtl::rewind_mode::required, tao::pegtl::nothing, vf::vcontrol, vf::lazy_in ) \
+   VF_WRAP( name##_no, __VA_ARGS__, tao::pegtl::apply_mode::nothing, tao::pegtl::rewind_mode::optional, tao::pegtl::nothing, vf::vcontrol, vf::lazy_in )
+
 // the four apply/rewind combinations of one rule, with no action attached
 #define VF_WRAP7( name, ... )                                                                                                  \
    VF_WRAP4( name, __VA_ARGS__ )                                                                                               \
    VF_WRAP( name##_pr, __VA_ARGS__, tao::pegtl::apply_mode::action, tao::pegtl::rewind_mode::required, vf::void_apply, vf::vcontrol )  \
    VF_WRAP( name##_po, __VA_ARGS__, tao::pegtl::apply_mode::action, tao::pegtl::rewind_mode::optional, vf::void_apply, vf::vcontrol )  \
-   VF_WRAP( name##_qr, __VA_ARGS__, tao::pegtl::apply_mode::action, tao::pegtl::rewind_mode::required, vf::void_apply0, vf::vcontrol )
+   VF_WRAP( name##_qr, __VA_ARGS__, tao::pegtl::apply_mode::action, tao::pegtl::rewind_mode::required, vf::void_apply0, vf::vcontrol ) \
+   VF_WRAP( name##_xr, __VA_ARGS__, tao::pegtl::apply_mode::nothing, tao::pegtl::rewind_mode::required, vf::void_apply, vf::vcontrol )  \
+   VF_WRAP( name##_xo, __VA_ARGS__, tao::pegtl::apply_mode::nothing, tao::pegtl::rewind_mode::optional, vf::void_apply, vf::vcontrol )
 
 #define VF_WRAP4( name, ... )                                                                                                  \
    VF_WRAP( name##_ar, __VA_ARGS__, tao::pegtl::apply_mode::action, tao::pegtl::rewind_mode::required, tao::pegtl::nothing, vf::vcontrol )  \
